@@ -1,5 +1,5 @@
 /-
-  C04 - append-only schema evolution interoperates in both directions.    PARTIAL.
+  C04 - append-only schema evolution interoperates in both directions.
 
   The Lean specification decoder (`Stef.Spec`) honours the wire-schema descriptor of a stream:
   while it builds the column tree (`mkNode`) it fetches, for every struct / oneof on FIRST
@@ -26,20 +26,45 @@
     visited struct is refused - `refuse` at every position, not only for one step);
     `refuse_root_partial` spells the error out for the root.
 
-  NOT proved (stated in full as `ForwardStatement`, decided by the h_gen runs): the RECORD level -
-  that `decodeStream B` on a stream written in schema A returns A's records extended with
-  defaults (`Ext`).  What is missing is a simulation of `decodeNode` for two schemas whose
-  states differ in the B-only fields (the trees are equal by `init_with_override`, the bit
-  consumption is therefore the same, but the states `initSt σ` / `altInit σ` and the struct
-  dictionary contents differ by the appended default fields).  `downgrade` concerns the Go
-  WRITER (keepFieldMask), which has no Lean model: run-only.  The interoperability statement of
-  C04 stays DECIDED pair by pair by the cross-package runs of h_gen (code generated for A and B,
-  both directions, Lean decoder as oracle on every stream, genuine and crafted descriptors).
+  The RECORD level (`forward_records`, Proofs/Forward*.lean) - PROVED for all schema pairs A ≼ B
+  with A well formed (`Closed A`: no dangling type names; `DictInj A`: no two structs share a
+  struct dictionary), all roots, all byte streams, ANY descriptor: if `decodeStream A` decodes a
+  stream that carries a descriptor without error, then `decodeStream B` decodes it without error
+  to the same number of records with the same root masks, each B record being A's record with
+  B-only trailing struct fields (`Ext`).  The proof is a simulation of `decodeNode` (and of the
+  four list decoders, `decodeRecords`, the frame loop and `decodeStream`) for the two schemas over
+  the SAME column tree (`init_mono`): column data, codec states, string dictionaries and counters
+  are equal, previous values and struct-dictionary entries are related by `Forward.KRel`, a
+  relation indexed by the type key that implies `Ext` and records how far a struct value follows
+  A's definition (so that B-only fields can only sit behind ALL of A's fields).
+  `forward_records_partial` is the statement in the shape of `ForwardStatement` (A's own
+  descriptor) with the two well-formedness hypotheses.
+
+  FINDING (about the statement / the specification decoder, not about the Go code): the
+  unrestricted `ForwardStatement` is FALSE (`forwardStatement_false`).  Two independent corners,
+  both with concrete schemas and streams evaluated by the kernel (Proofs/ForwardCex.lean):
+  * `forward_needs_dictInj`: two structs S1 {p, q}, S2 {p} of A share the struct dictionary "d";
+    B appends `z : int64` to S2.  A stream stores an S2 value in "d", a later S1 field refers to
+    it and is then sent with full encoding and an empty modified mask.  The A reader pads the
+    short S2 value with the placeholder `.oneof 0 none` where the B reader finds S2's default
+    `z = 0`: the records differ in a field A HAS, which is not an extension.
+  * `forward_needs_closed`: A's struct S has a field of the undefined type "[]S", which `mkNode`
+    accepts because the name coincides with the key of the enclosing array `[]S` (recursion cut);
+    B defines a struct "[]S".  `initSt A` gives the placeholder, `initSt B` a struct.
+  Neither corner is reachable from IDL-generated schemas (the IDL resolves every type name, array
+  keys are not identifiers, and a dictionary belongs to one struct type).
+
+  `downgrade` concerns the Go WRITER (keepFieldMask), which has no Lean model: run-only.  The
+  interoperability statement of C04 for the Go code stays DECIDED pair by pair by the
+  cross-package runs of h_gen (code generated for A and B, both directions, Lean decoder as
+  oracle on every stream, genuine and crafted descriptors).
 -/
 import Stef.Proofs.Override
+import Stef.Proofs.ForwardStream
+import Stef.Proofs.ForwardCex
 
 namespace Stef.Props.C04
-open Stef Stef.Spec Stef.Proofs.Override
+open Stef Stef.Spec Stef.Proofs.Override Stef.Proofs.Forward
 
 /-- (a) first encounter, descriptor present, next count `c ≤ own`: the count is `c`, it is
     consumed from the descriptor and remembered under the struct's name. -/
@@ -162,12 +187,13 @@ theorem refuse_root_partial (A : Schema) (fuel : Nat) (root : String) (d : Optio
   rw [mkNode]
   simp [hf, fetchCount, hc, bind, Except.bind]
 
-/-! ### The record-level statement (NOT proved) -/
+/-! ### The record-level statement -/
 
 /-- the full forward statement at the level of the specification decoder: a stream that decodes
     under schema A, and carries A's descriptor, decodes under every B with A ≼ B to the same number
     of records with the same root masks, each an extension of A's record by B-only fields.
-    This is a DEFINITION (the statement), not a theorem: it is not proved, see the header. -/
+    As stated (for ALL schemas A) it is FALSE: `forwardStatement_false`. It holds for well-formed A:
+    `forward_records_partial`, and more generally for any descriptor: `forward_records`. -/
 def ForwardStatement : Prop :=
   ∀ (A B : Schema), SchemaLe A B → ∀ (root : String) (stream : Bytes) (nodeA : Node) (bA : Build),
     mkNode A 200 [] (.ref root) {} = .ok (nodeA, bA) →
@@ -176,6 +202,90 @@ def ForwardStatement : Prop :=
     (decodeStream B root stream).error = none ∧
     (decodeStream A root stream).records.map (·.1) = (decodeStream B root stream).records.map (·.1) ∧
     ExtL ((decodeStream A root stream).records.map (·.2)) ((decodeStream B root stream).records.map (·.2))
+
+/-- **forward_records** (record level, any descriptor): for A ≼ B with A well formed (`Closed A`: every
+    type name A mentions is defined in A; `DictInj A`: no two structs of A share a struct
+    dictionary), every stream that carries a wire-schema descriptor and that a reader for A decodes
+    without error is decoded without error by a reader for B, to the same number of records with
+    the same root masks, every B record extending the A record by B-only trailing struct fields. -/
+theorem forward_records (A B : Schema) (hAB : SchemaLe A B) (hC : Closed A) (hD : DictInj A)
+    (root : String) (stream : Bytes) (l : List Nat)
+    (hE : (decodeStream A root stream).error = none)
+    (hW : (decodeStream A root stream).header.wireCounts = some l) :
+    (decodeStream B root stream).error = none ∧
+    (decodeStream A root stream).records.map (·.1) = (decodeStream B root stream).records.map (·.1) ∧
+    ExtL ((decodeStream A root stream).records.map (·.2)) ((decodeStream B root stream).records.map (·.2)) := by
+  obtain ⟨h1, h2⟩ := stream_sim hAB hC hD root stream l hE hW
+  exact ⟨h1, recRel_split h2⟩
+
+/-- `ForwardStatement` restricted to well-formed A (the two excluding hypotheses are explicit) -/
+def ForwardStatementWF : Prop :=
+  ∀ (A B : Schema), SchemaLe A B → Closed A → DictInj A →
+    ∀ (root : String) (stream : Bytes) (nodeA : Node) (bA : Build),
+    mkNode A 200 [] (.ref root) {} = .ok (nodeA, bA) →
+    (decodeStream A root stream).error = none →
+    (decodeStream A root stream).header.wireCounts = some (wireOf bA) →
+    (decodeStream B root stream).error = none ∧
+    (decodeStream A root stream).records.map (·.1) = (decodeStream B root stream).records.map (·.1) ∧
+    ExtL ((decodeStream A root stream).records.map (·.2)) ((decodeStream B root stream).records.map (·.2))
+
+/-- **forward_records_partial**: `ForwardStatement` for every well-formed A. -/
+theorem forward_records_partial : ForwardStatementWF := by
+  intro A B hAB hC hD root stream nodeA bA _ hE hW
+  exact forward_records A B hAB hC hD root stream (wireOf bA) hE hW
+
+/-- non-vacuity of `forward_records` / `forward_records_partial`: the pair exA ≼ exB, a real
+    two-record stream carrying exA's own descriptor [3, 1, 2]; all hypotheses hold, and the B reader's
+    records really are longer (`Cex.ex_runB`: the B-only fields `S.n`, `R.y` at their defaults). -/
+example : ∃ nodeA bA, mkNode exA 200 [] (.ref "R") {} = .ok (nodeA, bA) ∧ wireOf bA = [3, 1, 2] ∧
+    (decodeStream exA "R" Cex.exStream).error = none ∧
+    (decodeStream exA "R" Cex.exStream).header.wireCounts = some (wireOf bA) ∧
+    (decodeStream exA "R" Cex.exStream).records = [(7, Cex.exRec 5#64), (1, Cex.exRec 6#64)] ∧
+    (decodeStream exB "R" Cex.exStream).error = none ∧
+    (decodeStream exA "R" Cex.exStream).records.map (·.1) = (decodeStream exB "R" Cex.exStream).records.map (·.1) ∧
+    ExtL ((decodeStream exA "R" Cex.exStream).records.map (·.2)) ((decodeStream exB "R" Cex.exStream).records.map (·.2)) ∧
+    (decodeStream exB "R" Cex.exStream).records = [(7, Cex.exRecB 5#64), (1, Cex.exRecB 6#64)] := by
+  refine ⟨_, _, rfl, rfl, Cex.ex_runA.1, Cex.ex_runA.2.1, Cex.ex_runA.2.2, ?_, ?_, ?_, Cex.ex_runB⟩
+  · exact (forward_records_partial exA exB exA_le_exB Cex.exA_closed Cex.exA_dictInj "R" Cex.exStream _ _ rfl
+      Cex.ex_runA.1 Cex.ex_runA.2.1).1
+  · exact (forward_records_partial exA exB exA_le_exB Cex.exA_closed Cex.exA_dictInj "R" Cex.exStream _ _ rfl
+      Cex.ex_runA.1 Cex.ex_runA.2.1).2.1
+  · exact (forward_records_partial exA exB exA_le_exB Cex.exA_closed Cex.exA_dictInj "R" Cex.exStream _ _ rfl
+      Cex.ex_runA.1 Cex.ex_runA.2.1).2.2
+
+/-- **forward_needs_dictInj**: with two structs of A sharing a struct dictionary the conclusion fails
+    (A closed, every other hypothesis of `ForwardStatement` true, both readers decode without error). -/
+theorem forward_needs_dictInj : ∃ (A B : Schema) (root : String) (stream : Bytes) (nodeA : Node) (bA : Build),
+    SchemaLe A B ∧ Closed A ∧ mkNode A 200 [] (.ref root) {} = .ok (nodeA, bA) ∧
+    (decodeStream A root stream).error = none ∧
+    (decodeStream A root stream).header.wireCounts = some (wireOf bA) ∧
+    (decodeStream B root stream).error = none ∧
+    ¬ ExtL ((decodeStream A root stream).records.map (·.2)) ((decodeStream B root stream).records.map (·.2)) := by
+  obtain ⟨nodeA, bA, hmk, hw⟩ := Cex.c_mkNode
+  refine ⟨Cex.cA, Cex.cB, "R", Cex.cStream, nodeA, bA, Cex.cA_le_cB, Cex.cA_closed, hmk, Cex.c_runA.1, ?_,
+    Cex.c_runB.1, ?_⟩
+  · rw [hw]; exact Cex.c_runA.2.1
+  · rw [Cex.c_runA.2.2, Cex.c_runB.2]; exact Cex.c_not_ext
+
+/-- **forward_needs_closed**: with a dangling type name in A (accepted by `mkNode` because it
+    coincides with an array key) that B defines, the conclusion fails (A has no dictionaries). -/
+theorem forward_needs_closed : ∃ (A B : Schema) (root : String) (stream : Bytes) (nodeA : Node) (bA : Build),
+    SchemaLe A B ∧ DictInj A ∧ mkNode A 200 [] (.ref root) {} = .ok (nodeA, bA) ∧
+    (decodeStream A root stream).error = none ∧
+    (decodeStream A root stream).header.wireCounts = some (wireOf bA) ∧
+    (decodeStream B root stream).error = none ∧
+    ¬ ExtL ((decodeStream A root stream).records.map (·.2)) ((decodeStream B root stream).records.map (·.2)) := by
+  obtain ⟨nodeA, bA, hmk, hw⟩ := Cex.d_mkNode
+  refine ⟨Cex.dA, Cex.dB, "R", Cex.dStream, nodeA, bA, Cex.dA_le_dB, Cex.dA_dictInj, hmk, Cex.d_runA.1, ?_,
+    Cex.d_runB.1, ?_⟩
+  · rw [hw]; exact Cex.d_runA.2.1
+  · rw [Cex.d_runA.2.2, Cex.d_runB.2]; exact Cex.d_not_ext
+
+/-- **forwardStatement_false**: the unrestricted record-level statement does not hold. -/
+theorem forwardStatement_false : ¬ ForwardStatement := by
+  intro h
+  obtain ⟨A, B, root, stream, nodeA, bA, hAB, _, hmk, hE, hW, _, hne⟩ := forward_needs_dictInj
+  exact hne (h A B hAB root stream nodeA bA hmk hE hW).2.2
 
 /-! ### Non-vacuity: a concrete pair A ≼ B whose descriptor lists differ in length -/
 
